@@ -52,7 +52,12 @@ def jobs(tier, seed):
     out = []
     for tja in range(0, m + 1):
         for tjb in range(0, m + 1):
-            out.append(("select", tja, tjb, m))
+            # (the C-parity variant is a job of its own in thorough: large spins fork into many paths)
+            if tier == "quick":
+                out.append(("select", tja, tjb, m))
+            else:
+                out.append(("select", tja, tjb, m, False))
+                out.append(("select", tja, tjb, m, True))
     r = 3 if tier == "quick" else 5
     for tja in range(0, r + 1):
         out.append(("rank", tja, r))
@@ -89,13 +94,13 @@ def _pred(l, s2, tja, tjb, tjc, pa, pb, pc, pbreak, ca):
     return T.band(*c)
 
 
-def job_select(ss, tja_c, tjb_c, m):
+def job_select(ss, tja_c, tjb_c, m, only_c=None):
     from symx import pybuiltins as PB
     import tf_pwa.particle as particle
 
     particle.int = PB.sym_int
     try:
-        for use_c in (False, True):
+        for use_c in ((False, True) if only_c is None else (only_c,)):
             def run():
                 tja = T.const(tja_c, "I")
                 tjb = T.const(tjb_c, "I")
